@@ -178,7 +178,7 @@ LEVEL = {
     "C04": dict(
         text="Theorems: HTS wildcard matching equals the declarative Matches relation; a question holds iff one pattern matches; a single-leaf tree selects its "
              "PDF; on every well-formed tree the loader's index form walked by search_node returns exactly what walking the file's own tree by node id returns "
-             "(yes -> second child, no -> first); from_linear's layout; engine defaults equal the header values; every Gaussian selection can return from an accepted file is entry id-1 of the PDF list of the tree whose declared state matches and has the announced layout; accepted forward-referencing trees are total. The byte-level reader is tied to the loader by "
+             "(yes -> second child, no -> first); from_linear's layout; engine defaults equal the header values; every Gaussian selection can return from an accepted file is entry id-1 of the PDF list of the tree whose declared state matches and has the announced layout; accepted forward-referencing trees are total; read-back theorems (pdf_block_read_back etc.): the binary PDF block, window rows, header numbers and ranges written by a writer are returned by the reader exactly, float32 entries bit for bit. The byte-level reader is tied to the loader by "
              "parsing the same files: the driver reads the .htsvoice itself, walks the file's trees with glob on the label text and compares tree index, PDF "
              "index and every float32 entry bit for bit with Model::get_index/get_parameter, plus metadata, options, windows and defaults, on the bundled voice "
              "and on generated voices written by the harness's own .htsvoice writer.",
